@@ -632,9 +632,22 @@ class Result:
         self.status, self.seconds, self.model, self.smt2, self.backend, self.reason = status, seconds, model, smt2, backend, reason
 
 
+def timeout_scale():
+    """solver budgets are wall-clock: stretch them when the machine is oversubscribed (or by VERIF_TIMEOUT_SCALE), so that a busy
+    machine gives the same verdicts as an idle one. A budget never affects soundness, only how long 'undecided' takes."""
+    try:
+        env = os.environ.get("VERIF_TIMEOUT_SCALE")
+        if env:
+            return max(1.0, float(env))
+        return max(1.0, min(5.0, 1.5 * os.getloadavg()[0] / (os.cpu_count() or 4)))
+    except Exception:
+        return 1.0
+
+
 def prove(goal, side=None, timeout_ms=20000, name="ob", outdir=None, second_opinion=False):
     """goal: z3 BoolRef to be proved valid under the side conditions.
     Returns Result(status in discharged|failed|undecided)."""
+    timeout_ms = int(timeout_ms * timeout_scale())
     side = list(ENV.side if side is None else side)
     s = z3.Solver()
     s.set("timeout", timeout_ms)
